@@ -6,6 +6,7 @@ package query
 //verif:harness VerifC19OddStatements mode=bv tier=quick split=8
 
 import (
+	"math"
 	"time"
 
 	"github.com/mithrandie/csvq/lib/parser"
@@ -47,7 +48,7 @@ func VerifC19StatementsSetup() {
 
 // Session statements, declarations, flags, cursors, prepared statements and table attributes used in
 // ways nobody intended, with an argument @v of every value class (NULL, integers incl. the extremes,
-// float, boolean, datetime, empty / ordinary / statement-like texts): each program ends normally or
+// floats incl. NaN and infinity, boolean, datetime, empty / ordinary / statement-like texts): each program ends normally or
 // with an ordinary error - never with a Go panic or a [Fatal Error].
 func VerifC19OddStatements() {
 	verifFileWrite("t.csv", "a\n1\n2\n")
@@ -56,7 +57,7 @@ func VerifC19OddStatements() {
 	proc := NewProcessor(tx)
 	args := []value.Primary{
 		value.NewNull(), value.NewInteger(0), value.NewInteger(-1), value.NewInteger(9223372036854775807), value.NewInteger(-9223372036854775808),
-		value.NewFloat(1.5), value.NewBoolean(true), value.NewDatetime(time.Unix(1328260695, 0).In(time.UTC)),
+		value.NewFloat(1.5), value.NewFloat(math.NaN()), value.NewFloat(math.Inf(1)), value.NewBoolean(true), value.NewDatetime(time.Unix(1328260695, 0).In(time.UTC)),
 		value.NewString(""), value.NewString("abc"), value.NewString("select 1"), value.NewString("%s %d"), value.NewString("[1, 3]"), value.NewString("exit"),
 	}
 	verifVar(proc.ReferenceScope, "v", args[verifChoice("v", len(args))])
